@@ -486,7 +486,24 @@ func TestWriterWire(t *testing.T) {
 				}
 			}
 			for a := rapid.IntRange(0, 7).Draw(t, "actions"); a > 0; a-- {
-				switch rapid.IntRange(0, 11).Draw(t, "action") {
+				switch rapid.IntRange(0, 12).Draw(t, "action") {
+				case 12:
+					// abandon the message after >= 1 fragment went out: ResetOp drops what is buffered and
+					// what follows is a NEW message (first frame: the given opcode, RSV1 iff compressed)
+					if wt.open == nil {
+						continue
+					}
+					op = rapid.SampledFrom(ops).Draw(t, "abandon.op")
+					w.ResetOp(op)
+					if fs, _ := wt.take(); len(fs) != 0 {
+						t.Fatalf("ResetOp sent %d frames", len(fs))
+					}
+					wt.open = nil
+					wt.shape = append(wt.shape, 'A')
+					accepted, wrote = nil, false
+					flag = rapid.Bool().Draw(t, "abandon.compressed")
+					ms.SetCompressed(flag)
+					hx.Class("writer/message-abandoned-with-ResetOp-after-fragments")
 				case 10, 11:
 					p := gen.Filled(genLen(t, "readfrom", w), byte(len(accepted)))
 					rs := tx.NewSrc(p, gen.Chunks(t, "readfrom.chunks"))
